@@ -65,12 +65,21 @@ def da(spec, v):
     return xarray.DataArray(np.array(v, dtype=float), dims=["time"], coords={"time": spec.dataset["time"]})
 
 
+_OBJECTS = {}
+
+
 def merged(cls, par):
-    p = cls.default_parameters()
-    if par:
-        for k, v in par.items():
-            p[k] = unhx(v)
-    return cls(dict(p))
+    """source-term objects are RE-USED across cases with the same parameters (as an application does
+    that evaluates many spectra with one generation/dissipation object): a result must depend on the
+    spectrum passed in, not on what the object was called with before."""
+    key = (cls.__name__, tuple(sorted((par or {}).items())))
+    if key not in _OBJECTS:
+        p = cls.default_parameters()
+        if par:
+            for k, v in par.items():
+                p[k] = unhx(v)
+        _OBJECTS[key] = cls(dict(p))
+    return _OBJECTS[key]
 
 
 def tail_root(gen, spec, U, wd, kind, z0):
